@@ -584,3 +584,120 @@ impl Family for FOddKeys {
         module(vec![("main", func(&[], cards)), ("main2", func(&[], vec![])), ("cb", func(&["k", "v", "i"], vec![C::Return(b(int(1)))]))])
     }
 }
+
+// ------------------------------------------------------------------------------------------------
+// self-referencing closures; closures with many captured variables
+// ------------------------------------------------------------------------------------------------
+
+/// A closure reachable from its own captured variable (directly, through a table, or through a
+/// second closure), escaped from its scope or not, used in every operand position - including the
+/// ones that raise a type error and may want to print the value.
+pub struct FSelfRef;
+
+impl FSelfRef {
+    const SHAPES: u64 = 4;
+    const USES: u64 = 17;
+}
+
+impl Family for FSelfRef {
+    fn name(&self) -> &'static str {
+        "F-selfref"
+    }
+    fn len(&self) -> u64 {
+        Self::SHAPES * Self::USES
+    }
+    fn case(&self, idx: u64) -> Module {
+        let shape = idx % Self::SHAPES;
+        let usage = idx / Self::SHAPES;
+        let mut fns: Vec<(&str, Func)> = Vec::new();
+        let mut main: Vec<C> = Vec::new();
+        match shape {
+            0 => {
+                fns.push(("mk", func(&[], vec![sv("f", C::Nil), sv("f", C::Closure(vec![], vec![C::Return(b(rv("f")))])), C::Return(b(rv("f")))])));
+                main.push(sv("v", call("mk", vec![])));
+            }
+            1 => {
+                fns.push(("mk", func(&[], vec![sv("t", C::CreateTable), sv("t.f", C::Closure(vec![], vec![C::Return(b(rv("t")))])), C::Return(b(rv("t.f")))])));
+                main.push(sv("v", call("mk", vec![])));
+            }
+            2 => {
+                // not escaped: the upvalue is still open
+                main.push(sv("v", C::Nil));
+                main.push(sv("v", C::Closure(vec![], vec![C::Return(b(rv("v")))])));
+            }
+            _ => {
+                fns.push((
+                    "mk",
+                    func(&[], vec![sv("g", C::Nil), sv("f", C::Closure(vec![], vec![C::Return(b(rv("g")))])), sv("g", C::Closure(vec![], vec![C::Return(b(rv("f")))])), C::Return(b(rv("f")))]),
+                ));
+                main.push(sv("v", call("mk", vec![])));
+            }
+        }
+        let v = || rv("v");
+        let logv = |name: &str, x: C| sg("_sink", native("log2", vec![s(name), x]));
+        main.push(match usage {
+            0 => logv("get-property", C::GetProperty(b(v()), b(int(1)))),
+            1 => C::SetProperty(b(int(1)), b(v()), b(int(1))),
+            2 => logv("get-row", C::Get(b(v()), b(int(0)))),
+            3 => C::Append(b(int(1)), b(v())),
+            4 => logv("pop", C::PopTable(b(v()))),
+            5 => C::ForEach { i: None, k: Some("k".into()), v: Some("x".into()), iterable: b(v()), body: b(logv("row", rv("k"))) },
+            6 => logv("len", C::Len(b(v()))),
+            7 => logv("add", bin(BinOp::Add, v(), int(1))),
+            8 => logv("eq", bin(BinOp::Equals, v(), v())),
+            9 => logv("less", bin(BinOp::Less, v(), v())),
+            10 => comp(vec![sv("tt", C::CreateTable), C::SetProperty(b(int(1)), b(rv("tt")), b(v())), logv("as-key", C::Len(b(rv("tt"))))]),
+            11 => logv("call", C::Len(b(C::DynCall(b(v()), vec![])))),
+            12 => logv("not", C::Not(b(v()))),
+            13 => logv("to-array", C::Len(b(call("std.to_array", vec![v()])))),
+            14 => logv("min", C::Len(b(call("std.min", vec![v()])))),
+            15 => sv("v.field", int(1)),
+            _ => logv("dotted-read", rv("v.field")),
+        });
+        main.push(sg("done", int(1)));
+        let mut functions = vec![("main", func(&[], main))];
+        functions.extend(fns);
+        module(functions)
+    }
+}
+
+/// Closures capturing k variables: directly from the enclosing function, and transitively through a
+/// middle closure that itself captures some - around the limits of the upvalue tables.
+pub struct FManyUpvalues;
+
+impl FManyUpvalues {
+    const DIRECT: [u64; 12] = [0, 1, 2, 50, 100, 200, 253, 254, 255, 256, 257, 300];
+    const NESTED: [(u64, u64); 10] = [(1, 1), (100, 100), (127, 127), (128, 127), (128, 128), (130, 130), (254, 1), (255, 1), (200, 100), (1, 255)];
+}
+
+impl Family for FManyUpvalues {
+    fn name(&self) -> &'static str {
+        "F-many-upvalues"
+    }
+    fn len(&self) -> u64 {
+        (Self::DIRECT.len() + Self::NESTED.len()) as u64
+    }
+    fn case(&self, idx: u64) -> Module {
+        let sum = |names: &[String]| names.iter().fold(int(0), |acc, n| bin(BinOp::Add, acc, rv(n)));
+        if (idx as usize) < Self::DIRECT.len() {
+            let k = Self::DIRECT[idx as usize];
+            let names: Vec<String> = (0..k).map(|j| format!("o{j}")).collect();
+            let mut body: Vec<C> = names.iter().enumerate().map(|(j, n)| sv(n, int(j as i64))).collect();
+            body.push(sv("c", C::Closure(vec![], vec![C::Return(b(sum(&names)))])));
+            body.push(C::Return(b(rv("c"))));
+            return module(vec![("main", func(&[], vec![sv("c", call("mk", vec![])), sg("r", C::DynCall(b(rv("c")), vec![]))])), ("mk", func(&[], body))]);
+        }
+        let (ko, km) = Self::NESTED[idx as usize - Self::DIRECT.len()];
+        let outer: Vec<String> = (0..ko).map(|j| format!("o{j}")).collect();
+        let mid: Vec<String> = (0..km).map(|j| format!("m{j}")).collect();
+        let mut all = outer.clone();
+        all.extend(mid.iter().cloned());
+        let mut mid_body: Vec<C> = mid.iter().enumerate().map(|(j, n)| sv(n, int(1000 + j as i64))).collect();
+        mid_body.push(sv("inner", C::Closure(vec![], vec![C::Return(b(sum(&all)))])));
+        mid_body.push(C::Return(b(rv("inner"))));
+        let mut body: Vec<C> = outer.iter().enumerate().map(|(j, n)| sv(n, int(j as i64))).collect();
+        body.push(sv("midc", C::Closure(vec![], mid_body)));
+        body.push(C::Return(b(C::DynCall(b(rv("midc")), vec![]))));
+        module(vec![("main", func(&[], vec![sv("c", call("mk", vec![])), sg("r", C::DynCall(b(rv("c")), vec![]))])), ("mk", func(&[], body))])
+    }
+}
